@@ -82,6 +82,12 @@ func (t *TemplateDef) Tolerations() []corev1.Toleration {
 	for _, k := range t.Tolerate {
 		if k == "*" {
 			out = append(out, corev1.Toleration{Operator: corev1.TolerationOpExists})
+		} else if k == "timed" {
+			// what the DefaultTolerationSeconds admission plugin adds to ordinary pods: the keys of two
+			// default DaemonSet tolerations, but bounded in time
+			sec := int64(300)
+			out = append(out, corev1.Toleration{Key: "node.kubernetes.io/not-ready", Operator: corev1.TolerationOpExists, Effect: corev1.TaintEffectNoExecute, TolerationSeconds: &sec},
+				corev1.Toleration{Key: "node.kubernetes.io/unreachable", Operator: corev1.TolerationOpExists, Effect: corev1.TaintEffectNoExecute, TolerationSeconds: &sec})
 		} else {
 			out = append(out, corev1.Toleration{Key: k, Operator: corev1.TolerationOpExists})
 		}
@@ -419,7 +425,7 @@ func genTemplate(r *rand.Rand, letter string, fancy float64) *TemplateDef {
 		t.AffinityKind = pick(r, "zoneA", "notPoolY", "hasZone", "noExclude", "two-terms", "preferred-only", "nameNotN1", "hasZoneNotN1")
 	}
 	if chance(r, fancy) {
-		t.Tolerate = []string{pick(r, "dedicated", "evict", "*")}
+		t.Tolerate = []string{pick(r, "dedicated", "evict", "*", "timed")}
 	}
 	if chance(r, fancy*0.6) {
 		t.Side = true
